@@ -24,7 +24,7 @@ class SafeEnvironment(Environment):
     @property
     def params(self) -> Mapping[str, Any]:
         try:
-            params = self.env.params
+            params = dict(self.env.params)
         except AttributeError:
             params = {}
 
@@ -247,7 +247,7 @@ class SafeLearner(Learner):
         try:
             params = self.learner.params
             params = params if not callable(params) else params()
-            params = params if isinstance(params,dict) else {'params':str(params)}
+            params = dict(params) if isinstance(params,dict) else {'params':str(params)}
         except AttributeError:
             params = {}
 
@@ -420,7 +420,7 @@ class SafeEvaluator(Evaluator):
     @property
     def params(self):
         try:
-            params = self.evaluator.params
+            params = dict(self.evaluator.params)
         except:
             params = {}
 
